@@ -205,4 +205,17 @@ PROPS = {
         'trusted_base': ['clear_overridden_feedback / override restoration: assumed here, bounded under C20',
                          'tool reset functions, Environment.__init__, command-line modes: bounded only (B-history)'],
     },
+    'C18': {
+        'sidecars': ['contracts/c18_tifa.py'],
+        'native': 'c18', 'ground': False,
+        'level': 'other',
+        'explanation': 'Proved from the real source: Tifa.process_code never raises whatever Exception the parser or the 1200-line '
+                       'visitor (abstract callee) raises, returns its analysis object, flags failure and attaches one system '
+                       'feedback per failure; tifa_analysis answers a repeated request from its cache - same object, no analysis '
+                       'run, cache and latest untouched - and caches a first request. Bounded (B-tifa-robust): that the analysis '
+                       'completes for the introductory subset, that repetition yields the same issues and no extra feedback on '
+                       'the real tool, and that issue lines lie within the source.',
+        'trusted_base': ['process_ast (the visitor) as an abstract callee: may raise any Exception, touches only analysis data',
+                         'system_error attaches exactly one muted system feedback (ghost counter)'],
+    },
 }
